@@ -51,13 +51,15 @@ def write_cfg(entry, variant, fixed, maxdevs, mutant="none", invariants=None):
 
 def run_tlc(entry, variant, fixed, maxdevs, mutant="none", invariants=None, workers=4, timeout=900):
     cfg, name = write_cfg(entry, variant, fixed, maxdevs, mutant, invariants)
-    r = common.tlc("MCProofShape", cfg=cfg, workers=workers, timeout=timeout, tag="c18-" + name)
+    r = common.tlc("MCProofShape", cfg=cfg, workers=workers, timeout=timeout, tag="c18-" + name,
+                   env={"JAVA_TOOL_OPTIONS": "-XX:TieredStopAtLevel=1 -XX:CICompilerCount=1"} if maxdevs == 1 else None)
     return name, r
 
 
-def model_runs(chk, fixed, pairs, label, extra_jobs=()):
+def model_runs(chk, fixed, pairs, label, extra_jobs=(), cfgs=None):
     """TLC on every (entry, variant) (+ extra canary jobs) in one pool; returns (scenarios, extra results)."""
-    jobs = [(e, v, fixed, 2 if (e, v) in pairs else 1, "none", None) for (e, v) in CFGS] + list(extra_jobs)
+    cfgs = cfgs or CFGS
+    jobs = [(e, v, fixed, 2 if (e, v) in pairs else 1, "none", None) for (e, v) in cfgs] + list(extra_jobs)
     # the pair runs first (they are the long ones)
     order = sorted(range(len(jobs)), key=lambda i: -jobs[i][3])
     with ThreadPoolExecutor(max_workers=8) as ex:
@@ -65,13 +67,13 @@ def model_runs(chk, fixed, pairs, label, extra_jobs=()):
                              4 if jobs[i][3] == 2 else 1) for i in order}
         res = [futs[i].result() for i in range(len(jobs))]
     scen = []
-    for (name, r), j in list(zip(res, jobs))[:len(CFGS)]:
+    for (name, r), j in list(zip(res, jobs))[:len(cfgs)]:
         chk.add_tlc("ProofShape %s/%s maxdevs=%d %s" % (j[0], j[1], j[3], label), r)
         if not r.ok:
             raise ToolError("ProofShape %s violates %s (spec-level inconsistency)" % (name, r.violated))
         scen += common.tagged(r.prints, "REPLAY")
     scen.sort(key=lambda s: s["id"])
-    return scen, res[len(CFGS):]
+    return scen, res[len(cfgs):]
 
 
 # ---------------------------------------------------------------------------------------------
@@ -89,35 +91,80 @@ def comp_name(f, entry):
     m = {"leaf": "init_leaf", "path": "init_path", "evals": "step_evals", "lpath": "step_path",
          "noracles": "evals_proofs", "nsteps": "steps", "skeys": "steps_map",
          "nrounds": "initial_trees_proofs" if entry == "compressed" else "query_round_proofs",
-         "ncaps": "commit_phase_merkle_caps.len", "pis": "public_inputs"}
+         "ncaps": "commit_caps", "pis": "public_inputs", "indices": "indices", "final_poly": "final_poly"}
     if g in m:
         return m[g]
     if g.startswith("op."):
-        return "openings." + g[3:]
+        real = {"sigmas": "plonk_sigmas", "zs": "plonk_zs", "zs_next": "plonk_zs_next", "pp": "partial_products",
+                "quot": "quotient_polys", "squot": "quotient_polys", "lzs": "lookup_zs", "lzs_next": "lookup_zs_next",
+                "aux": "auxiliary_polys", "aux_next": "auxiliary_polys_next", "local": "local_values", "next": "next_values",
+                "ctl": "ctl_zs_first"}
+        return real.get(g[3:], g[3:])
     return g
 
 
+SHORT = ("zero", "minus1")
+LONG = ("plus1", "huge")
+
+
 def mal_name(f, v, entry):
-    if f in CAP_REAL and v in CAP_CLASS:
-        return CAP_CLASS[v], CAP_REAL[f]
+    """(malformation class, component) of one deviation: ONE key per (entry point, class, component);
+    rounds, layers and the two 'short' / 'long' classes are grouped."""
+    c = comp_name(f, entry)
+    if f in CAP_REAL:
+        if v == "none":
+            return "missing", CAP_REAL[f]
+        if v == "some":
+            return "unexpected", CAP_REAL[f]
+        return ("cap-len-0" if v == "zero" else "cap-len-1024" if v == "huge" else "cap-len-3"), CAP_REAL[f]
     if entry == "stark" and f == "nrounds" and v == "zero":
         return "empty-query-rounds", None
-    cls = {"zero": "too-short", "minus1": "too-short", "plus1": "too-long", "huge": "too-long", "np2": "len-3",
-           "none": "missing", "some": "unexpected"}[v]
-    return cls, comp_name(f, entry)
+    if entry == "stark" and f in ("r0.path0",):
+        return "bad-degree", "first_merkle_path"
+    if f == "ncaps":
+        return ("few-commit-caps", None) if v in SHORT else ("surplus", "commit_caps")
+    if entry == "compressed" and (f == "nrounds" or f.startswith("skeys")):
+        return ("missing-key", c) if v in SHORT else ("surplus", "init_key" if f == "nrounds" else "step_key")
+    if f.startswith("op."):
+        if v == "none":
+            return "missing", c
+        if v == "some":
+            return "unexpected", c
+        return ("short-openings" if v in SHORT else "long-openings"), c
+    if c == "init_leaf":
+        return ("short-leaf" if v in SHORT else "long-leaf"), c
+    if c in ("init_path", "step_path"):
+        return ("short-path", c) if v in SHORT else ("surplus", c)
+    if c == "step_evals":
+        return "bad-len", c
+    if c == "steps" and entry == "compressed" and v in LONG:
+        return "surplus", c
+    return ("short-list" if v in SHORT else "long-list"), c
 
 
-def scen_key(ep, sc, what=None):
+def scen_key(ep, sc, obs=None, accepted=False):
+    """stable key C18/<entry point>/<malformation class>/<component>"""
+    devs = sc["devs"]
+    if not devs:
+        return "C18/%s/unmodified" % ep
+    absorbed = [d for d in devs if ABSORBED_RE.search(d["f"])]
+    if (obs and "panic" in obs and sc["entry"] == "compressed" and not sc["adaptive"] and absorbed
+            and ("no entry found for key" in obs["panic"])):
+        # any change of anything the transcript absorbs re-randomises the query indices: one key
+        return "C18/%s/missing-key/fs-change" % ep
     parts = []
-    for d in sc["devs"]:
+    for d in devs:
         mal, comp = mal_name(d["f"], d["v"], sc["entry"])
+        if accepted and (mal in ("surplus", "long-openings", "long-list")
+                         or (sc["adaptive"] and comp in ("init_path", "step_path"))):
+            mal = "surplus-accepted"        # (re-keyed proofs carry full-length paths: one sibling less is still surplus)
+        elif accepted:
+            mal = "accepted-" + mal
         parts.append(mal if comp is None else mal + "/" + comp)
-    body = "+".join(sorted(parts)) if parts else "unmodified"
-    pre = "rekeyed-" if (sc["adaptive"] and sc["entry"] == "compressed") else ""
-    key = "C18/%s/%s%s" % (ep, pre, body)
-    if what:
-        key = "C18/%s/%s/%s%s" % (ep, what, pre, body)
-    return key
+    return "C18/%s/%s" % (ep, "+".join(sorted(set(parts))))
+
+
+ABSORBED_RE = re.compile(r"(_cap$|^op\.|^pis$|^ncaps$|^ccap$|^final_poly$)")
 
 
 def obs_class(o):
@@ -144,12 +191,13 @@ def run(chk, tier):
     pairs = set(CFGS) if thorough else {("compressed", "std")}
 
     # ---- A: the pinned-tree model (+ the refinement / mutant canaries in the same pool)
+    cfgs = CFGS if thorough else [c for c in CFGS if c != ("verify", "zk")]
     canary_jobs = []
-    for e, v in (("verify", "std"), ("compressed", "std"), ("stark", "fib"), ("stark", "perm")):
-        canary_jobs.append((e, v, set(), 1, "none", ["FaithfulRefinesIdeal"]))
+    for e, v in ((("verify", "std"), ("compressed", "std"), ("stark", "fib"), ("stark", "perm")) if thorough
+                 else (("compressed", "std"), ("stark", "fib"))):
         canary_jobs.append((e, v, set(FIXES), 1, "none", ["FaithfulRefinesIdeal", "HonestAccepted"]))
     canary_jobs.append(("verify", "std", set(), 1, "skip_shape", ["IdealRejectsMisshaped"]))
-    s0, cres = model_runs(chk, set(), pairs, "pinned", canary_jobs)
+    s0, cres = model_runs(chk, set(), pairs, "pinned", canary_jobs, cfgs)
     by_id = {s["id"]: s for s in s0}
     chk.sample({"scenario": s0[len(s0) // 3]})
 
@@ -161,14 +209,15 @@ def run(chk, tier):
                fa("compressed/std/S/nrounds:minus1")["res"] == "panic" and fa("compressed/std/S/op.wires:plus1")["step"] == "inferred.initial[x]")
     chk.canary("Faithful(pinned) panics for empty STARK query rounds before shape validation (defect 3)",
                fa("stark/fib/S/nrounds:zero")["step"] == "degbits.rounds[0]")
-    # refinement canaries: pinned model does not refine Ideal, the fully repaired one does
+    # refinement canaries: pinned model does not refine Ideal (read off the printed behaviours), the fully repaired one does
+    for e in ("verify", "compressed", "stark"):
+        bad = [s for s in s0 if s["entry"] == e and s["faithful"]["res"] != s["ideal"]]
+        chk.canary("Faithful(pinned) does not refine Ideal for %s (%d behaviours differ)" % (e, len(bad)), len(bad) > 0)
     res = cres
     for name, r in res:
         chk.add_tlc("ProofShape " + name, r)
         if "skip_shape" in name:
             chk.canary("spec mutant: Ideal without the shape check accepts a mis-shaped proof (TLC finds it)", r.violated is not None)
-        elif "pinned" in name:
-            chk.canary("Faithful(pinned) does not refine Ideal: " + name, r.violated is not None)
         else:
             if not r.ok:
                 raise ToolError("the fully repaired Faithful model does not refine Ideal: %s (%s)" % (name, r.violated))
@@ -178,9 +227,14 @@ def run(chk, tier):
     # ---- B1: replay of the shape scenarios
     scen_path = os.path.join(common.OUT, "c18_scenarios.ndjson")
     replayable = [s for s in s0 if not (s["adaptive"] and s["entry"] != "compressed")]
+    if not thorough:
+        # quick tier: every single deviation, and a seeded third of the pairs (TLC still enumerates all of them)
+        import zlib
+        replayable = [s for s in replayable if len(s["devs"]) < 2 or (zlib.crc32(s["id"].encode()) + common.seed()) % 3 == 0]
+    chk.extra["replayed_fraction_of_pairs"] = 1.0 if thorough else 1.0 / 3
     common.write_ndjson(scen_path, replayable)
-    budget = 12000 if thorough else 2000
-    hres = common.vh(["all", "--scen", scen_path, "--fams", nf, "--threads", 12, "--budget", budget,
+    budget = 12000 if thorough else 1200
+    hres = common.vh(["all", "--scen", scen_path, "--fams", nf, "--threads", 12 if thorough else 8, "--budget", budget,
                       "--byte-fams", 4 if thorough else 2], binname="c18", timeout=3000)
     res = hres
     summ = [r for r in res if r.get("summary") == "shapes"][0]
@@ -257,7 +311,8 @@ def run(chk, tier):
             pass  # partially repaired families show up as DRIFT below
     model = s0
     if fixed:
-        model, _ = model_runs(chk, fixed, pairs, "Fixed={%s}" % ",".join(sorted(fixed)))
+        # (single deviations only: the pair scenarios keep the pinned prediction and are not compared)
+        model, _ = model_runs(chk, fixed, set(), "Fixed={%s}" % ",".join(sorted(fixed)), (), cfgs)
     mby = {s["id"]: s for s in model}
 
     # ---- verdicts
@@ -266,7 +321,21 @@ def run(chk, tier):
     # predicts it); each site is reported once, keyed by its canonical (smallest) triggering malformation,
     # with the other triggers listed in the replay payload.
     CLS = ["np2", "zero", "minus1", "none", "plus1", "huge", "some"]
-    ABSORBED = re.compile(r"(_cap$|^op\.|^pis$|^ncaps$|^ccap$|^final_poly$)")
+    ABSORBED = ABSORBED_RE
+
+    def recipe(sc, fam):
+        how = []
+        for d in sc["devs"]:
+            how.append("%s -> %s" % (d["f"], {"zero": "empty", "minus1": "drop last element", "plus1": "duplicate last element",
+                                              "np2": "length 3", "huge": "very long", "none": "None", "some": "Some(..)"}[d["v"]]))
+        pre = {"verify": "valid ProofWithPublicInputs", "compressed": "valid CompressedProofWithPublicInputs",
+               "stark": "valid StarkProofWithPublicInputs"}[sc["entry"]]
+        ad = ""
+        if sc["adaptive"] and sc["entry"] == "compressed":
+            ad = "; then re-key initial_trees_proofs / steps with the recomputed Fiat-Shamir indices (full-length paths)"
+        if sc["adaptive"] and sc["entry"] == "verify":
+            ad = "; config with 1 query round and 0 pow bits, search pow_witness until the recomputed query index equals the original"
+        return "%s of family %s: %s%s; scenario id %s (bin/vcheck C18 --replay)" % (pre, fam, ", ".join(how), ad, sc["id"])
 
     def prio(sc):
         ds = sc["devs"]
@@ -283,9 +352,13 @@ def run(chk, tier):
 
     accepted_single = set()
     single_locs = set()
+    single_panics = set()
     ordered = sorted(s0, key=prio)
     for sc in ordered:
-        msc = mby.get(sc["id"], sc)
+        msc = mby.get(sc["id"])
+        compare = msc is not None
+        if msc is None:
+            msc = sc
         recs = obs.get(sc["id"], [])
         ok_all = True
         for r in recs:
@@ -299,38 +372,35 @@ def run(chk, tier):
                     continue
                 # ---- property level
                 if r.get("big_alloc"):
-                    site_add(("alloc", ep), sc, scen_key(ep, sc, "alloc"), "allocation of %d bytes attempted" % r["big_alloc"],
+                    site_add(("alloc", ep), sc, scen_key(ep, sc) + "/alloc", "allocation of %d bytes attempted" % r["big_alloc"],
                              {"scenario": sc, "observed": r})
                 if cls == "panic" and ep not in ("verifier_data.verify", "decompress+verify"):
                     # (`verifier_data.verify` is the same function as `verify`; `decompress+verify` is `verify` on a
                     # decompressed value, whose shape classes the "verify" entry covers directly)
-                    epk = "verify_compressed" if ep == "decompress" else ep
-                    want = msc["decompress"] if ep == "decompress" else msc["faithful"]
-                    lm = (epk, o.get("loc"), re.sub(r"\d+", "#", o["panic"])[:50])
+                    lm = (ep, o.get("loc"), re.sub(r"\d+", "#", o["panic"])[:50])
                     if len(sc["devs"]) == 1:
                         single_locs.add(lm)
-                        site = lm + (want["step"] if want["res"] == "panic" else "",)
-                    elif lm in single_locs:
-                        continue            # a pair that repeats the panic site of a single deviation
-                    else:
-                        site = lm + ("",)
-                    site_add(site, sc, scen_key(epk, sc), "%s panics: %s at %s" % (ep, o["panic"][:120], o.get("loc")),
-                             {"scenario": sc, "family": r["fam"], "entry_point": ep, "observed": o, "model": msc["faithful"]})
-                elif cls == "ok" and ep in ("verify", "verify_compressed", "verify_stark_proof") and not r.get("trivial") \
-                        and sc["ideal"] == "reject":
+                        single_panics.add((ep, sc["devs"][0]["f"]))
+                    elif lm in single_locs or any((ep, d["f"]) in single_panics for d in sc["devs"]):
+                        continue            # a pair that repeats a single deviation's panic
+                    key = scen_key(ep, sc, o)
+                    site_add(key, sc, key, "%s panics: %s at %s" % (ep, o["panic"][:120], o.get("loc")),
+                             {"scenario": sc, "family": r["fam"], "entry_point": ep, "observed": o, "model": msc["faithful"],
+                              "recipe": recipe(sc, r["fam"])})
+                elif cls == "ok" and ep in ("verify", "verify_compressed", "verify_stark_proof") and sc["ideal"] == "reject":
                     fs = frozenset(d["f"] for d in sc["devs"])
                     if len(sc["devs"]) == 1:
                         accepted_single.add((ep, fs))
                     elif any((ep, frozenset([f])) in accepted_single for f in fs):
                         continue        # explained by an accepted single deviation
-                    what = "surplus-accepted" if all(d["v"] in ("plus1", "huge") for d in sc["devs"]) else "accepted"
-                    k = scen_key(ep, sc, what)
-                    # one report per component: classes / rounds / layers / re-keying of the same component collapse
-                    ck = (ep, "+".join(sorted(comp_name(d["f"], sc["entry"]) for d in sc["devs"])))
-                    accepts.setdefault(ck, []).append((prio(sc), k, "%s returns Ok for a mis-shaped proof" % ep,
-                                                      {"scenario": sc, "family": r["fam"], "observed": o, "model": msc["faithful"]}))
+                    key = scen_key(ep, sc, o, accepted=True)
+                    accepts.setdefault(key, []).append((prio(sc), key, "%s returns Ok for a mis-shaped proof" % ep,
+                                                       {"scenario": sc, "family": r["fam"], "observed": o, "model": msc["faithful"],
+                                                        "recipe": recipe(sc, r["fam"])}))
                 # ---- implementation level: Faithful prediction (for the inferred repair set)
                 conv = {"panic": "panic", "reject": "err", "accept": "ok", "ok": "ok"}
+                if not compare:
+                    continue
                 if ep == PRIMARY[sc["entry"]]:
                     want = msc["faithful"]
                     allowed = {conv[want["res"]]}
@@ -350,6 +420,14 @@ def run(chk, tier):
                         drift.setdefault(dk, []).append(r["fam"])
         if recs and ok_all:
             matched += 1
+    # binding canary: one corrupted expected verdict must surface as a disagreement
+    probe = next((sc for sc in ordered if sc["id"] in mby and mby[sc["id"]]["faithful"]["res"] == "reject"
+                  and not mby[sc["id"]]["faithful"]["maybe"]
+                  and any(r.get("applied") and not r.get("trivial") for r in obs.get(sc["id"], []))), None)
+    if probe is not None:
+        seen = {obs_class(o) for r in obs[probe["id"]] if r.get("applied") for o in r["obs"] if o["ep"] == PRIMARY[probe["entry"]]}
+        chk.canary("binding: corrupting the expected verdict of %s (reject -> accept) disagrees with the observation" % probe["id"],
+                   "ok" not in seen and seen <= {"err"})
     chk.traces += matched
     chk.extra["scenarios"] = {"generated": len(s0), "replayed": len(obs), "faithful_prediction_matched": matched}
     for dk, fams in sorted(drift.items())[:40]:
@@ -388,18 +466,19 @@ def run(chk, tier):
         chk.evaluations += 2
         if not r["same"]:
             chk.nontrivial += 2
+        grp = ("opening" if r["what"].startswith("op.") else "cap" if r["what"] in ("wires_cap", "zs_cap", "quot_cap")
+               else r["what"])
         for ep in ("verify_compressed", "decompress"):
             o = r[ep]
             if "panic" in o:
-                vsite = ("value-tamper", o.get("loc"), re.sub(r"\d+", "#", o["panic"])[:50])
-                if vsite not in vt_sites:
-                    vt_sites[vsite] = {"key": "C18/verify_compressed/value-tamper/%s" % r["what"], "case": r, "whats": [], "eps": []}
-                    add_violation(vt_sites[vsite]["key"], "%s panics on a value tamper of a valid compressed proof: %s at %s"
-                                  % (ep, o["panic"][:100], o.get("loc")), vt_sites[vsite])
-                if r["what"] not in vt_sites[vsite]["whats"]:
-                    vt_sites[vsite]["whats"].append(r["what"])
-                if ep not in vt_sites[vsite]["eps"]:
-                    vt_sites[vsite]["eps"].append(ep)
+                key = "C18/%s/value-tamper/%s" % (ep, grp)
+                if key not in vt_sites:
+                    vt_sites[key] = {"case": r, "whats": [], "recipe": "valid compressed proof of family %s: %s := value + 1, then %s"
+                                     % (r["fam"], r["path"], ep)}
+                    add_violation(key, "%s panics on a value tamper of a valid compressed proof: %s at %s"
+                                  % (ep, o["panic"][:100], o.get("loc")), vt_sites[key])
+                if r["what"] not in vt_sites[key]["whats"]:
+                    vt_sites[key]["whats"].append(r["what"])
         if r["verify_compressed"].get("ok") and not r["same"] and r["what"] != "indices":
             add_violation("C18/verify_compressed/value-tamper-accepted/%s" % r["what"], "tampered compressed proof accepted", {"case": r})
         if r["what"] == "indices" and not r["verify_compressed"].get("ok"):
@@ -426,19 +505,21 @@ def run(chk, tier):
         elif r.get("kind") == "bytes":
             o = r["obs"]
             region = r["detail"].get("field") or r["detail"].get("region") or "any"
+            region = {"index": "indices", "path-len": "query_rounds", "pi-len": "public_inputs"}.get(region, region)
+            if "+" in r["ep"] and "panic" in o and "no entry found for key" in o["panic"]:
+                region = "missing-key"      # the decoded proof is well-shaped; its recomputed indices miss the maps
             if "panic" in o:
-                what = "alloc" if "ALLOC-GUARD" in o["panic"] else r["what"]
-                bsite = (r["ep"], o.get("loc"), re.sub(r"\d+", "#", o["panic"])[:50])
-                if bsite not in b_sites:
-                    b_sites[bsite] = {"key": "C18/%s/bytes-%s/%s" % (r["ep"], what, region), "case": r, "other": []}
-                    add_violation(b_sites[bsite]["key"], "%s panics on a mutated %s encoding: %s at %s"
-                                  % (r["ep"], r["form"], o["panic"][:100], o.get("loc")), b_sites[bsite])
-                else:
-                    t = "%s/%s" % (what, region)
-                    if t not in b_sites[bsite]["other"]:
-                        b_sites[bsite]["other"].append(t)
+                what = "bytes-alloc" if "ALLOC-GUARD" in o["panic"] else "bytes"
+                key = "C18/%s/%s/%s" % (r["ep"], what, region)
+                if key not in b_sites:
+                    b_sites[key] = {"case": r, "mutations": [], "recipe": "to_bytes() of the valid %s proof of family %s, %s %s, then %s"
+                                    % (r["form"], r["fam"], r["what"], json.dumps(r["detail"]), r["ep"])}
+                    add_violation(key, "%s panics on a mutated %s encoding: %s at %s"
+                                  % (r["ep"], r["form"], o["panic"][:100], o.get("loc")), b_sites[key])
+                if r["what"] not in b_sites[key]["mutations"]:
+                    b_sites[key]["mutations"].append(r["what"])
             elif r["extra"].get("accepted"):
-                add_violation("C18/%s/bytes-%s-accepted/%s" % (r["ep"], r["what"], region), "a different proof decoded from mutated bytes is accepted", {"case": r})
+                add_violation("C18/%s/bytes-accepted/%s" % (r["ep"], region), "a different proof decoded from mutated bytes is accepted", {"case": r})
         elif r.get("kind") == "layout-drift":
             chk.note_drift("byte layout of the harness disagrees with the encoder: %s" % json.dumps(r))
     chk.extra["bytes"] = bstats
@@ -460,7 +541,22 @@ def run(chk, tier):
             psites.setdefault("%s | %s" % (m.group(2), re.sub(r"\d+", "#", m.group(1))[:60]), []).append(key)
     chk.extra["panic_sites"] = psites
     chk.extra["violation_keys"] = sorted(viol)
+    write_report("C18", viol, os.path.join(common.OUT, "c18_findings_report.md"),
+                 "model variant matching the code: Fixed = {%s}" % ", ".join(sorted(fixed)))
     chk.exhaustive = False
+
+
+def write_report(prop, viol, path, header):
+    """every violation key of this run with what fails and how to reproduce, plus a ready known_findings line"""
+    with open(path, "w") as f:
+        f.write("# %s findings of the last run (%d keys)\n\n%s\n\n" % (prop, len(viol), header))
+        for key, (detail, payload, n) in sorted(viol.items()):
+            recipe = payload.get("recipe") or payload.get("case", {}).get("path") or ""
+            f.write("## %s\n- what: %s\n- occurrences in this run: %d\n- reproduce: %s\n" % (key, detail, payload.get("triggers", n), recipe))
+            others = payload.get("other_triggering_malformations") or payload.get("whats") or payload.get("mutations")
+            if others:
+                f.write("- also triggered by: %s\n" % ", ".join(map(str, others[:30])))
+            f.write("- known_findings line: `%s`\n\n" % json.dumps({"property": prop, "key": key, "status": "known", "what": detail[:220]}))
 
 
 def replay(path):
